@@ -645,29 +645,34 @@ class RouterStation(RealStation):
             gn_addr=self.router.mib.itsGnLocalGnAddr, tst=TST.set_in_normal_timestamp_milliseconds(clock_ms),
             latitude=self.lat, longitude=self.lon, pai=True)
 
-    def send(self, kind, payload: bytes, clock_ms, its_aid=None):
-        """originate one packet through the real Router; returns the emitted frame(s)"""
+    def send(self, kind, payload: bytes, clock_ms, its_aid=None, area=None, transport=None):
+        """originate one packet through the real Router; returns the emitted frame(s).
+        `area` = (latitude, longitude, a, b) of a circular destination area: the packet goes out as GeoBroadcast (or
+        GeoAnycast: `transport="gac"`) towards that area, which need not contain the sender (default for DENMs: 500 m
+        around the sender; CAM / VAM are always single-hop broadcasts; a generic message is SHB unless an area is given)"""
         from flexstack.geonet.service_access_point import (GNDataRequest, PacketTransportType, HeaderType,
-                                                           GeoBroadcastHST, Area, CommonNH)
+                                                           GeoBroadcastHST, GeoAnycastHST, Area, CommonNH)
         from flexstack.security.security_profiles import SecurityProfile
         self.set_position(clock_ms)
         self.ll.take()       # frames forwarded earlier (GBC) are not this emission
-        if kind in ("cam", "vam", "other"):
-            prof = {"cam": SecurityProfile.COOPERATIVE_AWARENESS_MESSAGE, "vam": SecurityProfile.VRU_AWARENESS_MESSAGE,
-                    "other": SecurityProfile.NO_SECURITY}[kind]
-            aid = its_aid if its_aid is not None else {"cam": 36, "vam": 638, "other": 99}[kind]
+        prof = {"cam": SecurityProfile.COOPERATIVE_AWARENESS_MESSAGE, "vam": SecurityProfile.VRU_AWARENESS_MESSAGE,
+                "other": SecurityProfile.NO_SECURITY,
+                "denm": SecurityProfile.DECENTRALIZED_ENVIRONMENTAL_NOTIFICATION_MESSAGE}.get(kind)
+        if prof is None:
+            raise ValueError(kind)
+        aid = its_aid if its_aid is not None else {"cam": 36, "vam": 638, "other": 99, "denm": 37}[kind]
+        if kind in ("cam", "vam") or (kind == "other" and area is None):
             req = GNDataRequest(upper_protocol_entity=CommonNH.BTP_B, data=payload, length=len(payload),
                                 security_profile=prof, its_aid=aid)
-        elif kind == "denm":
-            req = GNDataRequest(
-                upper_protocol_entity=CommonNH.BTP_B, data=payload, length=len(payload),
-                packet_transport_type=PacketTransportType(header_type=HeaderType.GEOBROADCAST,
-                                                          header_subtype=GeoBroadcastHST.GEOBROADCAST_CIRCLE),
-                area=Area(latitude=self.lat, longitude=self.lon, a=500, b=500, angle=0),
-                security_profile=SecurityProfile.DECENTRALIZED_ENVIRONMENTAL_NOTIFICATION_MESSAGE,
-                its_aid=its_aid if its_aid is not None else 37)
         else:
-            raise ValueError(kind)
+            lat, lon, a, b = area if area is not None else (self.lat, self.lon, 500, 500)
+            if transport == "gac":
+                ptt = PacketTransportType(header_type=HeaderType.GEOANYCAST, header_subtype=GeoAnycastHST.GEOANYCAST_CIRCLE)
+            else:
+                ptt = PacketTransportType(header_type=HeaderType.GEOBROADCAST, header_subtype=GeoBroadcastHST.GEOBROADCAST_CIRCLE)
+            req = GNDataRequest(
+                upper_protocol_entity=CommonNH.BTP_B, data=payload, length=len(payload), packet_transport_type=ptt,
+                area=Area(latitude=lat, longitude=lon, a=a, b=b, angle=0), security_profile=prof, its_aid=aid)
         self.router.gn_data_request(req)
         return self.ll.take()
 
